@@ -77,6 +77,9 @@ LITERALS = [
     ("float", "1.5", "ScalarDnumber", "both"), ("float", ".5", "ScalarDnumber", "both"), ("float", "1.", "ScalarDnumber", "both"),
     ("float-exp", "1e3", "ScalarDnumber", "both"), ("float-exp", "1E3", "ScalarDnumber", "both"), ("float-exp", "1.5e-3", "ScalarDnumber", "both"),
     ("float-exp", "2E+10", "ScalarDnumber", "both"), ("float-exp", ".5e1", "ScalarDnumber", "both"),
+    ("str-sq", "'x y'", "ScalarString", "both"), ("str-dq", '"x y"', "ScalarString", "both"),
+    ("bin-dq", 'b"x"', "ScalarString", "both"), ("bin-dq", 'B"x y"', "ScalarString", "both"),
+    ("bin-sq", "b'x'", "ScalarString", "both"), ("bin-sq", "B'x y'", "ScalarString", "both"),
 ]
 
 
